@@ -1,6 +1,6 @@
 (* C16 driver: line protocol over the extracted model (Gen/LookupInst.v).
    strings: dot-separated decimal code points, `e` = empty string; lists: comma separated, `_` = empty list; `-` = None.
-   L <q_shared 0|1> <A|F> <fs> <pkg> <seq>     fs/pkg: `-` or list of stem:path ; seq: list of class ids
+   L <q_shared 0|1> <A|F> <fs> <pkg> <seq>     fs/pkg: `-` or the raw sorted listing (list of relative paths); seq: list of class ids
        -> R <res,...> S <spec,...> G <U|P|N per lookup: get_source (basename res)>       res: string or `-`
    G <A|F> <fs> <pkg> <names>                  -> G <U|P|N,...>
    T <q_dt_only 0|1> <name> <cls id> <dt id>   -> T <1|0|N> <spec 1|0|N>
@@ -22,7 +22,7 @@ let split2 c s = match String.index_opt s c with
   | Some i -> (String.sub s 0 i, String.sub s (i + 1) (String.length s - i - 1))
   | None -> failwith ("bad pair " ^ s)
 let parse_entry s = let (a, b) = split2 ':' s in (parse_str a, parse_str b)
-let parse_tset = parse_opt (parse_list parse_entry)
+let parse_tset = parse_opt (parse_list parse_str)
 let parse_pol s = if s = "A" then FIND_ALL else FIND_FIRST
 let flag s = s = "1"
 let show_res = function None -> "-" | Some p -> show_str p
